@@ -126,9 +126,18 @@ Section LandmarkModel.
           end
     end.
 
-  (* phase 2:  for i < target_dimension: first.col(i).array() /= second(i) *)
-  Definition tri_divide (d : nat) (E : eig_result) : mat F :=
-    fun r c => if Nat.ltb c d then er_first E r c / er_second E c else er_first E r c.
+  (* phase 2 (since 7bdf733, finding F42):
+       null_eigenvalue = second.cwiseAbs().maxCoeff() * n_landmarks * epsilon();
+       for i < target_dimension:
+         if (second(i) > null_eigenvalue) first.col(i).array() /= second(i); else first.col(i).setZero();
+     `keep i` is the outcome of that binary64 comparison: an INPUT of the model (the check recomputes
+     it bit-exactly from the implementation's own eigenvalues).  The code BEFORE 7bdf733,
+         for i < target_dimension: first.col(i).array() /= second(i);
+     is the instance keep = fun _ => true. *)
+  Definition tri_divide (d : nat) (keep : nat -> bool) (E : eig_result) : mat F :=
+    fun r c => if Nat.ltb c d then (if keep c then er_first E r c / er_second E c else 0)
+               else er_first E r c.
+  Definition keep_all : nat -> bool := fun _ => true.
 
   (* phase 3, one row:
        for i < n_landmarks: d = distance(begin[index_iter], begin[landmarks[i]]); dtl(i) = d*d;
@@ -147,7 +156,7 @@ Section LandmarkModel.
         if nth x tp false then (x, row x) :: tri_rest r tp row else tri_rest r tp row
     end.
 
-  Definition triangulate (N d : nat) (lm : list nat) (dist : mat F)
+  Definition triangulate (N d : nat) (keep : nat -> bool) (lm : list nat) (dist : mat F)
              (mu_size : nat) (mu : vec F) (E : eig_result) : lres (list (nat * vec F)) :=
     let L := length lm in
     match tri_copy N d E lm 0 (repeat true N) with
@@ -160,7 +169,7 @@ Section LandmarkModel.
         else if existsb (fun b => b) tp && negb (Nat.eqb mu_size L && Nat.eqb (er_rows E) L) then
           LOOB "dtl -= landmark_distances_squared / first.transpose() * dtl: sizes differ" mu_size L
         else
-          let Fd := tri_divide d E in
+          let Fd := tri_divide d keep E in
           LOk (w1 ++ tri_rest (seq 0 N) tp (fun x => tri_row L Fd (tri_delta lm dist mu x)))
     end.
 
@@ -181,8 +190,9 @@ Section LandmarkModel.
 
   (* ---------------- LandmarkMultidimensionalScalingImplementation::embed ----------------
      lm: the landmarks (select_landmarks' answer); (W, w): the dense solver's answer for
-     lmds_matrix lm dist; s: the sqrt values of the d selected eigenvalues *)
-  Definition lmds_embed (N d : nat) (lm : list nat) (dist : mat F)
+     lmds_matrix lm dist; s: the values sqrt(max(lam, 0)) of the d selected eigenvalues (the clamp
+     is part of the sqrt oracle's contract since 7bdf733); keep: see tri_divide *)
+  Definition lmds_embed (N d : nat) (keep : nat -> bool) (lm : list nat) (dist : mat F)
              (W : mat F) (w : vec F) (s : vec F) : lres (list (nat * vec F)) :=
     let L := length lm in
     match find (fun l => negb (Nat.ltb l N)) lm with
@@ -192,18 +202,18 @@ Section LandmarkModel.
         match select_largest L d W w with
         | LOOB a b c => LOOB a b c
         | LOk (V, lam) =>
-            triangulate N d lm dist L mu
+            triangulate N d keep lm dist L mu
               {| er_rows := L; er_cols := d; er_first := scale_by V s;
                  er_size := d; er_second := lam |}
         end
     end.
 
   (* whole method, selection included *)
-  Definition lmds (N d : nat) (shuffled : list nat) (count : nat) (dist : mat F)
+  Definition lmds (N d : nat) (keep : nat -> bool) (shuffled : list nat) (count : nat) (dist : mat F)
              (W : mat F) (w : vec F) (s : vec F) : lres (list (nat * vec F)) :=
     match select_landmarks shuffled count with
     | LOOB a b c => LOOB a b c
-    | LOk lm => lmds_embed N d lm dist W w s
+    | LOk lm => lmds_embed N d keep lm dist W w s
     end.
 
   (* MultidimensionalScalingImplementation::embed; (W, w) the answer for mds_matrix_full n dist *)
@@ -260,7 +270,7 @@ Section LandmarkModel.
     (D2, mu, mtab L L (fun i j => mof C i j * lm_neg_half)).
 
   (* triangulate on tables; V: L x d selected eigenvectors BEFORE scaling *)
-  Definition lmds_tri_exec (N d : nat) (lm : list nat) (Ldist : list (list F))
+  Definition lmds_tri_exec (N d : nat) (keep : nat -> bool) (lm : list nat) (Ldist : list (list F))
              (V : list (list F)) (lam s : list F) : lres (list (option (list F))) :=
     let L := length lm in
     let dist := mof Ldist in
@@ -280,7 +290,7 @@ Section LandmarkModel.
             else if negb (Nat.leb d (er_size E)) then
               LOOB "landmarks_embedding.second(i)" (er_size E) (er_size E)
             else
-              let Fd := mtab L d (tri_divide d E) in
+              let Fd := mtab L d (tri_divide d keep E) in
               let row := fun x =>
                 let delta := vtab L (tri_delta lm dist (vof mu) x) in
                 vof (vtab d (tri_row L (mof Fd) (vof delta))) in
